@@ -229,7 +229,7 @@ Qed.
 
 (** two CUs, two dispatchers, two overlapping launches (3 and 2 work-groups);
     completions reported out of order; both launches are answered once. *)
-Definition demo_cp_cfg : cpcfg := mkCpCfg 1 0 2 4096.
+Definition demo_cp_cfg : cpcfg := mkCpCfg RoundRobin 1 0 2 4096.
 Definition demo_cus : list cucfg := [mkCfg 64 512 [(1024, 1)%N]; mkCfg 64 512 [(1024, 2)%N]].
 Definition demo_l1 : launch := mkLaunch 1 [mkDemand 1 16 4 256; mkDemand 1 16 4 256; mkDemand 1 16 4 256].
 Definition demo_l2 : launch := mkLaunch 2 [mkDemand 2 8 8 0; mkDemand 1 8 8 0].
